@@ -58,6 +58,13 @@ def generate(tape, tier="quick"):
         # what the mask of each publication looks like: cells chosen by a rule on the coordinates, a masked array that
         # masks nothing and therefore has no mask array (np.ma.masked_where on a step without hits), an all-False array
         sc["mask_modes"] = [tape.weighted([("rule", 3), ("nomask", 2), ("allfalse", 1)]) for _ in range(3)]
+        if False:
+            pass
+    if not sc["static"] and tape.chance(1, 3):
+        # the consumer lags: everything is published first, then every publication is pulled (several pulls
+        # between two notifications, each served from another retained publication)
+        sc["late_pulls"] = True
+    if sc["masked"]:
         if tape.chance(1, 3):
             # the same physical mask declared in the metadata of BOTH ends, each in its own layout
             sc["explicit_mask"] = True
@@ -123,7 +130,12 @@ def execute(sc):
         return result(sc, viol, True, ma, mb)
     conv = {"m": 1.0, "km": 0.001, "": 1.0}[uc] / {"m": 1.0, "km": 0.001, "": 1.0}[us]
     fb = mb.field(coef)
-    for k in range(sc["npub"] if not static else 3):
+    n_steps = sc["npub"] if not static else 3
+    if sc.get("late_pulls"):
+        seq = [("push", k) for k in range(n_steps)] + [("pull", k) for k in range(n_steps)]
+    else:
+        seq = [x for k in range(n_steps) for x in (("push", k), ("pull", k))]
+    for (what, k) in seq:
         # static slots: one publication, pulled three times (the cached value must stay the converted one)
         kk = 0 if static else k
         data = fa + 1000.0 * kk
@@ -139,8 +151,10 @@ def execute(sc):
         else:
             payload = data.copy()
         try:
-            if not static or k == 0:
-                out.push_data(payload, None if static else dt(k))
+            if what == "push":
+                if not static or k == 0:
+                    out.push_data(payload, None if static else dt(k))
+                continue
             got = inp.pull_data(dt(k))
         except Exception as e:
             v("transform-located", type(e).__name__,
